@@ -31,12 +31,16 @@ def spec_ext(draw, tier):
     if periodic and bias == "linear":
         bias = "harmonic"
     refl = draw(st.sampled_from(["none", "none", "lower", "upper", "both"])) if not periodic else "none"
-    return {"periodic": periodic, "lower": lower, "upper": upper, "x": x, "fluct": rnd(draw(fl(0.05, 0.5)), 3),
+    tsf = draw(st.sampled_from([1, 1, 1, 2, 3]))
+    if tsf > 1:
+        bias = "none"       # a variable integrated with a longer time step; biases with other factors are C08's subject
+    return {"tsf": tsf,
+            "periodic": periodic, "lower": lower, "upper": upper, "x": x, "fluct": rnd(draw(fl(0.05, 0.5)), 3),
             "tc": draw(st.sampled_from([10.0, 20.0, 50.0, 200.0])), "temp": draw(st.sampled_from([300.0, 100.0, 1000.0])),
             "dt": draw(st.sampled_from([1.0, 2.0, 0.5])), "damp": draw(st.sampled_from([0.0, 0.0, 1.0, 10.0])),
             "gauss": [rnd(draw(fl(-2.5, 2.5)), 3) for _ in range(16)], "bias": bias, "kb": rnd(draw(fl(0.5, 20)), 2),
             "c": rnd(draw(fl(-1, 3)), 2), "refl": refl, "rl": rnd(draw(fl(-0.5, 0.8)), 2), "ru": rnd(draw(fl(1.2, 2.5)), 2),
-            "newrun": draw(st.integers(2, T - 2)) if draw(st.integers(0, 2)) == 0 else None, "width": draw(st.sampled_from([1.0, 0.5]))}
+            "newrun": draw(st.integers(2, T - 2)) if (draw(st.integers(0, 2)) == 0 and tsf == 1) else None, "width": draw(st.sampled_from([1.0, 0.5]))}
 
 
 def build(spec):
@@ -47,6 +51,8 @@ def build(spec):
         up = spec["ru"]
     extra = {"extendedLagrangian": "on", "extendedFluctuation": fmt(spec["fluct"]), "extendedTimeConstant": fmt(spec["tc"]),
              "extendedTemp": fmt(spec["temp"]), "extendedLangevinDamping": fmt(spec["damp"]), "outputEnergy": "on", "outputVelocity": "on"}
+    if spec.get("tsf", 1) > 1:
+        extra["timeStepFactor"] = str(spec["tsf"])
     if spec["refl"] in ("lower", "both"):
         extra["reflectingLowerBoundary"] = "on"
     if spec["refl"] in ("upper", "both"):
@@ -69,14 +75,17 @@ def build(spec):
     return "\n".join(L) + "\n", (lo, up)
 
 
-def model(spec, bounds):
+def model(spec, bounds, observed=None):
+    """reference integrator; with 'observed' (the code's extended value and velocity at every evaluation) each step is predicted
+    from the code's own previous state, so that rounding differences are not amplified by stiff or unstable dynamics"""
     lo, up = bounds
     P = (up - lo) if spec["periodic"] else None
     w = spec["width"]
     kT = KB * spec["temp"]
     k = kT / (spec["fluct"] ** 2)
     m = kT * spec["tc"] ** 2 / (4 * math.pi ** 2 * spec["fluct"] ** 2)
-    dt = spec["dt"]
+    nts = spec.get("tsf", 1)
+    dt = spec["dt"] * nts          # the extended coordinate is integrated with the long time step
     gamma = spec["damp"] * 1e-3
     sigma = math.sqrt((1 - math.exp(-2 * gamma * dt)) * m * kT) if gamma > 0 else 0.0
     tape = spec["gauss"]
@@ -103,6 +112,9 @@ def model(spec, bounds):
             ev.append((t - 1, True, spec["x"][t - 1]))
         ev.append((t, False, x))
     for it, rep, xraw in ev:
+        if nts > 1 and it % nts != 0:
+            out.append(None)       # the variable sleeps at this step
+            continue
         x = wrap(xraw)
         if xe is None:
             xe, ve = x, 0.0
@@ -113,6 +125,10 @@ def model(spec, bounds):
         if rep and prev is not None:
             xe, ve = prev          # revert the integration of the repeated step
         x_rep, v_rep = xe, ve
+        if observed is not None and len(out) < len(observed) and observed[len(out)] is not None:
+            ox, ov = observed[len(out)]
+            if abs(ox - xe) <= 1e-9 * max(1.0, abs(xe)) and abs(ov - ve) <= 1e-9 * max(1.0, abs(ve)):
+                xe, ve = ox, ov          # agreed within tolerance: continue from the code's numbers
         # bias force on the extended coordinate and on the actual coordinate
         fb_ext, fb_act, Eb = 0.0, 0.0, 0.0
         b = spec["bias"]
@@ -142,7 +158,7 @@ def model(spec, bounds):
             else:
                 fb_ext = f
         fsys = -k * sdiff(xe, x)
-        f_atoms = -fsys + fb_act
+        f_atoms = -fsys * nts + fb_act      # applied as an impulse over the inner steps
         if abs(fsys) > 1e-9:
             info["spring"] += 1
         fext = fb_ext + fsys
@@ -179,12 +195,15 @@ def check_ext(spec, ctx):
         return Outcome(False, msg="crash %s" % r.stderr[-400:], sig="crash", case_text=case)
     if r.of("config")[0]["rc"] != 0:
         return Outcome(False, msg="configuration rejected: %s" % r.of("config")[0]["errs"], sig="gen_invalid", case_text=case)
-    exp, info = model(spec, bounds)
     steps = r.of("step")
+    obs = [((s["cv"][0]["x"][0], s["cv"][0]["v"][0]) if s["cv"] and "v" in s["cv"][0] else None) for s in steps]
+    exp, info = model(spec, bounds, obs)
     if len(steps) != len(exp):
         return Outcome(False, msg="trace has %d evaluations, expected %d" % (len(steps), len(exp)), sig="harness", case_text=case)
     lo, up = bounds
     for k, (s, m) in enumerate(zip(steps, exp)):
+        if m is None:
+            continue
         if s["errbits"]:
             if any("outside boundaries after reflection" in e for e in s["errs"]):
                 return Outcome(True, strata=["double_reflection"])
@@ -219,7 +238,8 @@ def check_ext(spec, ctx):
             return Outcome(False, msg="evaluation %d: force on the atom %r; spring (+ bypassing bias) gives %r %s" % (k, fz, m["fz"], tag),
                            sig="atom_force", case_text=case)
     cls = (spec["bias"], "per" if spec["periodic"] else "", "refl:" + spec["refl"], "lang" if spec["damp"] > 0 else "nve",
-           "newrun" if spec["newrun"] is not None else "")
+           "newrun" if spec["newrun"] is not None else "", "tsf" if spec.get("tsf", 1) > 1 else "",
+           "tsf_lang" if spec.get("tsf", 1) > 1 and spec["damp"] > 0 else "")
     nontrivial = len(exp) >= 20 and info["spring"] > 0 and (info["reflections"] > 0 or spec["newrun"] is not None)
     return Outcome(True, nontrivial=nontrivial, cls=cls, strata=[c for c in cls if c] + (["reflection"] if info["reflections"] else []), case_text=case)
 
@@ -231,4 +251,4 @@ def view(spec):
 
 
 PARTS = {"integrator": {"strategy": spec_ext, "check": check_ext, "examples": {"quick": 2000, "thorough": 30000}, "sample": view}}
-REQUIRED_STRATA = {"all": ["integrator:reflection", "integrator:lang", "integrator:nve", "integrator:newrun", "integrator:walls", "integrator:per"]}
+REQUIRED_STRATA = {"all": ["integrator:tsf", "integrator:tsf_lang", "integrator:reflection", "integrator:lang", "integrator:nve", "integrator:newrun", "integrator:walls", "integrator:per"]}
